@@ -147,6 +147,14 @@ func minimise(bin string, p *harness.Plan, v *harness.Violation) (*harness.Plan,
 				cur, curV = q, vv
 			}
 		}
+		if cur.UnlockYield > 0 {
+			q := clonePlan(cur)
+			q.UnlockYield = 0
+			q.Tape = nil
+			if vv, ok := same(q); ok {
+				cur, curV = q, vv
+			}
+		}
 		for n := len(cur.Tape) / 2; n >= 1; n /= 2 {
 			if len(cur.Tape) <= n {
 				continue
@@ -167,7 +175,11 @@ func minimise(bin string, p *harness.Plan, v *harness.Violation) (*harness.Plan,
 func writeReplay(prop string, seed uint64, run int, p *harness.Plan, v *harness.Violation) string {
 	dir := filepath.Join(verifDir, "replays")
 	os.MkdirAll(dir, 0o755)
-	path := filepath.Join(dir, fmt.Sprintf("%s-%d-%d.json", prop, seed, run))
+	name := prop
+	if p != nil && p.Prop != "" && p.Prop != prop {
+		name = prop + "-" + p.Prop // a part served under another id (e.g. C14-C14X): run indices are per id
+	}
+	path := filepath.Join(dir, fmt.Sprintf("%s-%d-%d.json", name, seed, run))
 	rf := replayFile{Property: prop, Seed: seed, Run: run, Violation: v, Plan: p,
 		Note: "re-execute with: bin/check replay " + path}
 	b, _ := json.MarshalIndent(rf, "", " ")
